@@ -110,7 +110,17 @@ class MultiSetEdit(SequenceEdit):
         for kvp_edit in self._matched_kvp_edits:
             if kvp_edit.tighten_bounds():
                 return True
-        return self._matcher.tighten_bounds()
+        if self._matcher.tighten_bounds():
+            return True
+        if not self._matcher.is_complete():
+            # The cost of the matching can be known before the matching itself is. Which nodes stay unmatched is
+            # only known once it has been computed, so compute it now:
+            initial_bounds = self.bounds()
+            _ = self._matcher.matching
+            new_bounds = self.bounds()
+            return new_bounds.lower_bound > initial_bounds.lower_bound \
+                or new_bounds.upper_bound < initial_bounds.upper_bound
+        return False
 
     def bounds(self) -> Range:
         b = self._matcher.bounds()
